@@ -211,6 +211,7 @@ package originium
 //@ define commitKeeps(t, cts) = forall(Str(w), old(ViewHas)[w] ==> (ViewHas[w] && ((wf(w) && ts(w) == cts && has(t.pendingWrites, uk(w)) && w == mk(uk(w), cts)) || ViewEnt[w] == old(ViewEnt)[w])), trig(ViewHas[w]))
 //
 //@ func (*originium.Txn).Commit -> err
+//@ serves wait:mark
 //@ props C07 C08 C06
 //@ requires txnWf(t) && writesInv(t) && orcInv(t.db.oracle) && histInv(t.db.oracle)
 //@ requires t.readTs < t.db.oracle.nextTs && t.db.oracle.nextTs < 9223372036854775807
@@ -530,3 +531,36 @@ package originium
 //@ trusted allocates the oracle and its two watermarks (each starts a consumer goroutine)
 //@ assigns nothing
 //@ ensures r != nil && ref(r) >= old(alloc) && r.readMark != nil && r.commitMark != nil && r.readMark != r.commitMark && r.nextTs == 0 && r.lastCleanUpTs == 0 && len(r.committedTxns) == 0
+//
+// ---------------------------------------------------------------------------------------------
+// C15: wait levels. A blocking operation is allowed only while every lock held and every wait
+// object served by the activation has a strictly lower level (govc/blocks.go). Ascending order:
+//   wait:mark                    WaitForMark (a reader waits for commits in progress; holds nothing)
+//   oracle.writeLock             serialises Commit; held while the commit is applied (rawset loop)
+//   oracle.Mutex                 timestamp bookkeeping; held over sends to the watermark consumers
+//   send flushC / closeC, recv closed   the flusher handshake (rawset and Close hold no DB lock there)
+//   DB.mu < levelManager.mu < memtable.mu < WAL.mu     the flusher needs these to drain flushC
+//   send markC                   the watermark consumer takes no lock
+//@ waitlevel wait:mark 5
+//@ waitlevel lock:originium.oracle.writeLock 10
+//@ waitlevel lock:originium.oracle.Mutex 15
+//@ waitlevel send:originium.DB.flushC 20
+//@ waitlevel send:originium.DB.closeC 22
+//@ waitlevel recv:originium.DB.closed 24
+//@ waitlevel recv:originium.DB.flushC 26
+//@ waitlevel recv:originium.DB.closeC 26
+//@ waitlevel lock:originium.DB.mu 30
+//@ waitlevel lock:originium.levelManager.mu 40
+//@ waitlevel lock:originium.memtable.mu 50
+//@ waitlevel lock:wal.WAL.mu 60
+//@ waitlevel send:watermark.WaterMark.markC 70
+//@ waitlevel recv:watermark.WaterMark.markC 70
+//@ waitlevel recv:watermark.WaterMark.stopC 70
+//@ waitlevel wait:watermark.WaterMark.wg 80
+//@ waitlevel lock:global.logger.loggerMu 90
+//@ waitlevel recv:result.Done 5
+//
+// the flusher: senders on flushC/closeC and the receiver of `closed` wait for this goroutine
+//@ func (*originium.DB).run
+//@ trusted thread entry; only its lock and wait-level clauses are checked against the body (C12, C15)
+//@ serves send:originium.DB.flushC send:originium.DB.closeC recv:originium.DB.closed
